@@ -184,6 +184,21 @@ def part_path(s):
             if not e <= TOL:
                 viol.append(dict(sig=dict(oracle="path_independent", observable=o.split(".")[-1], nl=s["nl"], lin=s["lin"], guess=s["guess"]), msg="%s at point %d (visit %d of order %s, %s/%s, guess %s) differs from the fresh default-solver analysis by %.2e" % (o, k, step, s["order"], s["nl"], s["lin"], s["guess"], e), measure=float(e)))
         dg.append(got["coupled.wing.disp"])
+        # the structure inside the loop carries the sum of ALL load sources of the configuration (transferred aerodynamic loads,
+        # structural and fuel weight, point masses, thrust), each taken from the group's own outputs
+        c = CONFIGS[s["cfg"]]
+        pre = "AS_point_0.coupled.wing.struct_states."
+        parts = [p["AS_point_0.coupled.wing_loads.loads"]]
+        if c["relief"]:
+            parts.append(p[pre + "struct_weight_loads"])
+        if c.get("pm"):
+            parts += [p[pre + "loads_from_point_masses"], p[pre + "loads_from_thrusts"]]
+        tot = np.sum(parts, axis=0)
+        val += 1
+        e = np.abs(p[pre + "total_loads"] - tot).max() / max(np.abs(tot).max(), 1e-300)
+        # (the structure is evaluated before the load transfer within a sweep: the two agree to the solver tolerance only)
+        if not e <= TOL:
+            viol.append(dict(sig=dict(oracle="loads_on_structure_are_sum_of_sources", cfg=s["cfg"]), msg="%s: the loads applied to the structure inside the coupled loop differ from the sum of the configuration's load sources by %.2e (rel.)" % (s["cfg"], e), measure=float(e)))
     return dict(viol=viol, nontrivial=bool(np.abs(dg[0]).max() > 1e-9), digest=digest_arrays(*dg), transitions=len(s["order"]), validated=val)
 
 
